@@ -587,22 +587,23 @@ Qed.
 Theorem allow_ends_phase req p r rest s sc : 1 <= p <= 5 ->
   s_skip s = 0 -> s_after s = None -> fl_halted p s = false -> fl_in_phase p r = true ->
   fl_removed s r = false -> fl_allow_break p s = None ->
+  fl_prefix_eng req (r_links r) (s_eng s) = MOn ->
   fl_last_allow (fl_fired_acts req r) = Some sc -> fl_blocks (Some sc) p = true ->
   let s1 := fl_evaluate req p r s in
   fl_obs (fl_eval_phase req p (r :: rest) s) = fl_obs s1 /\
   s_rm (fl_eval_phase req p (r :: rest) s) = s_rm s1.
 Proof.
-  intros HP SK AF H IP RM AB LA BL s1. unfold fl_eval_phase.
+  intros HP SK AF H IP RM AB EN LA BL s1. unfold fl_eval_phase.
   rewrite loop_evaluated by assumption. fold s1.
   assert (A1 : s_allow s1 = Some sc).
-  { unfold s1. rewrite evaluate_spec. cbn. rewrite LA. reflexivity. }
+  { unfold s1. rewrite evaluate_spec. cbn. rewrite EN, LA. reflexivity. }
   assert (B : fl_blocks (s_allow s1) p = true) by (rewrite A1; exact BL).
   destruct (blocked_loop req p HP rest s1 B) as (O & R & _).
   destruct (end_phase_obs (fl_eval_loop req p rest s1)) as [O' R'].
   rewrite O', R'. split; assumption.
 Qed.
 
-Definition g_of (s : fl_st) : fl_g := mkG (s_allow s) (s_intr s) (s_dintr s) (s_rm s) (s_ev s).
+Definition g_of (s : fl_st) : fl_g := mkG (s_allow s) (s_intr s) (s_dintr s) (s_rm s) (s_eng s) (s_ev s).
 
 (* from the response phases on, a carried allow:request is without effect *)
 Theorem allow_request_expired req q rs s : 3 <= q <= 5 ->
@@ -615,15 +616,15 @@ Proof.
   { split; [right; repeat split; [lia | exact A] | repeat split]. }
   assert (R2 : rel q (set_allow None s) g).
   { split; [left; reflexivity | repeat split]. }
-  destruct (phase_refines req rs q s g ltac:(lia) R1 (conj SK AF)) as [[_ (I1 & D1 & _ & E1)] _].
-  destruct (phase_refines req rs q (set_allow None s) g ltac:(lia) R2 (conj SK AF)) as [[_ (I2 & D2 & _ & E2)] _].
+  destruct (phase_refines req rs q s g ltac:(lia) R1 (conj SK AF)) as [[_ (I1 & D1 & _ & _ & E1)] _].
+  destruct (phase_refines req rs q (set_allow None s) g ltac:(lia) R2 (conj SK AF)) as [[_ (I2 & D2 & _ & _ & E2)] _].
   unfold fl_obs. rewrite I1, D1, E1, I2, D2, E2. reflexivity.
 Qed.
 
 (* ---- the logging phase ---- *)
 
 Definition log_rel (e1 e2 : list fl_event) (s1 s2 : fl_st) : Prop :=
-  s_skip s1 = s_skip s2 /\ s_after s1 = s_after s2 /\ s_rm s1 = s_rm s2 /\
+  s_skip s1 = s_skip s2 /\ s_after s1 = s_after s2 /\ s_rm s1 = s_rm s2 /\ s_eng s1 = s_eng s2 /\
   (s_allow s1 = s_allow s2 \/ (s_allow s1 <> Some ScPhase /\ s_allow s2 <> Some ScPhase)) /\
   exists d, s_ev s1 = e1 ++ d /\ s_ev s2 = e2 ++ d.
 
@@ -631,17 +632,17 @@ Lemma allow_break_5_nophase s : s_allow s <> Some ScPhase -> fl_allow_break 5 s 
 Proof. unfold fl_allow_break. destruct (s_allow s) as [[| |]|]; cbn; congruence. Qed.
 
 Lemma log_rel_set_after e1 e2 s1 s2 m : log_rel e1 e2 s1 s2 -> log_rel e1 e2 (set_after m s1) (set_after m s2).
-Proof. intros (A & B & C & D & E). repeat split; assumption. Qed.
+Proof. intros (A & B & C & D & E & F). repeat split; assumption. Qed.
 
 Lemma log_rel_set_skip e1 e2 s1 s2 k : log_rel e1 e2 s1 s2 -> log_rel e1 e2 (set_skip k s1) (set_skip k s2).
-Proof. intros (A & B & C & D & E). repeat split; assumption. Qed.
+Proof. intros (A & B & C & D & E & F). repeat split; assumption. Qed.
 
 Lemma log_rel_evaluate req r e1 e2 s1 s2 :
   log_rel e1 e2 s1 s2 -> log_rel e1 e2 (fl_evaluate req 5 r s1) (fl_evaluate req 5 r s2).
 Proof.
-  intros (SK & AF & RM & AL & d & E1 & E2). rewrite !evaluate_spec. unfold log_rel. cbn.
-  rewrite SK, AF, RM. repeat split.
-  - destruct eng; [|exact AL].
+  intros (SK & AF & RM & EN & AL & d & E1 & E2). rewrite !evaluate_spec. unfold log_rel. cbn.
+  rewrite SK, AF, RM, EN. repeat split.
+  - destruct (fl_prefix_eng req (r_links r) (s_eng s2)); try exact AL.
     destruct (fl_last_allow (fl_fired_acts req r)); [left; reflexivity | exact AL].
   - exists (d ++ [Ev 5 (r_id r) (fl_all_match req r && negb (r_id r =? 0))]).
     rewrite E1, E2, !app_assoc. split; reflexivity.
@@ -655,7 +656,7 @@ Proof.
   assert (H2 : fl_halted 5 s2 = false) by (unfold fl_halted; cbn; apply andb_false_r).
   rewrite H1, H2.
   destruct (negb (fl_in_phase 5 x)); [apply IH; exact R|].
-  pose proof R as (SK & AF & RM & AL & EV).
+  pose proof R as (SK & AF & RM & EN & AL & EV).
   unfold fl_removed. rewrite RM.
   destruct (existsb (Nat.eqb (r_id x)) (s_rm s2)); [apply IH; exact R|].
   rewrite AF. destruct (s_after s2) as [m|].
@@ -671,121 +672,182 @@ Proof.
 Qed.
 
 Lemma end_phase_ev s : s_ev (fl_end_phase s) = s_ev s.
-Proof. destruct s as [sk af [[| |]|] i d rm ev]; reflexivity. Qed.
+Proof. destruct s as [sk af [[| |]|] i d rm e ev]; reflexivity. Qed.
 
 (* whatever allow scope and interruption a transaction carries into the logging phase, the logging
-   phase evaluates exactly what a fresh transaction (with the same per-transaction removals) would *)
+   phase evaluates exactly what a fresh transaction (same per-transaction removals, same engine mode)
+   would *)
 Theorem logging_independent req rs s : fl_boundary s ->
-  s_ev (fl_eval_phase req 5 rs s) = s_ev s ++ s_ev (fl_eval_phase req 5 rs (fl_fresh (s_rm s))).
+  s_ev (fl_eval_phase req 5 rs s) = s_ev s ++ s_ev (fl_eval_phase req 5 rs (fl_fresh (s_rm s) (s_eng s))).
 Proof.
   intros (SK & AF & NP). unfold fl_eval_phase. rewrite !end_phase_ev.
-  assert (R : log_rel (s_ev s) [] s (fl_fresh (s_rm s))).
+  assert (R : log_rel (s_ev s) [] s (fl_fresh (s_rm s) (s_eng s))).
   { unfold log_rel, fl_fresh; cbn. repeat split; try assumption.
     - right. split; [exact NP | discriminate].
     - exists []. rewrite app_nil_r. split; reflexivity. }
-  destruct (log_loop req _ _ rs _ _ R) as (_ & _ & _ & _ & d & E1 & E2).
+  destruct (log_loop req _ _ rs _ _ R) as (_ & _ & _ & _ & _ & d & E1 & E2).
   rewrite E1, E2. reflexivity.
 Qed.
 
 Lemma guarded_boundary req rs s p : fl_boundary s -> fl_boundary (fl_guarded_phase req rs s p).
 Proof.
-  intro B. unfold fl_guarded_phase. destruct (is_some (s_intr s)); [exact B | apply phase_end_boundary].
+  intro B. unfold fl_guarded_phase. destruct (fl_is_off (s_eng s)); [exact B|].
+  destruct (is_some (s_intr s)); [exact B | apply phase_end_boundary].
 Qed.
 
-Theorem logging_always_runs req rs : exists s4,
+(* unless the rule engine of the transaction has been switched Off, the logging phase runs *)
+Theorem logging_always_runs eng req rs : exists s4,
   fl_boundary s4 /\
-  fl_run eng req rs = fl_eval_phase req 5 rs s4 /\
-  s_ev (fl_run eng req rs) = s_ev s4 ++ s_ev (fl_eval_phase req 5 rs (fl_fresh (s_rm s4))).
+  (s_eng s4 <> MOff ->
+   fl_run eng req rs = fl_eval_phase req 5 rs s4 /\
+   s_ev (fl_run eng req rs) = s_ev s4 ++ s_ev (fl_eval_phase req 5 rs (fl_fresh (s_rm s4) (s_eng s4)))).
 Proof.
-  exists (fold_left (fl_guarded_phase req rs) [1; 2; 3; 4] fl_init).
-  assert (B : fl_boundary (fold_left (fl_guarded_phase req rs) [1; 2; 3; 4] fl_init)).
+  exists (fold_left (fl_guarded_phase req rs) [1; 2; 3; 4] (fl_init eng)).
+  assert (B : fl_boundary (fold_left (fl_guarded_phase req rs) [1; 2; 3; 4] (fl_init eng))).
   { cbn [fold_left]. repeat apply guarded_boundary. repeat split. discriminate. }
-  split; [exact B|]. split; [reflexivity|].
-  unfold fl_run. apply logging_independent. exact B.
+  split; [exact B|]. intro ON.
+  assert (E : fl_run eng req rs = fl_eval_phase req 5 rs (fold_left (fl_guarded_phase req rs) [1; 2; 3; 4] (fl_init eng))).
+  { unfold fl_run, fl_logging.
+    destruct (s_eng (fold_left (fl_guarded_phase req rs) [1; 2; 3; 4] (fl_init eng))); try reflexivity.
+    congruence. }
+  split; [exact E|]. rewrite E. apply logging_independent. exact B.
 Qed.
 
-(* ---- DetectionOnly ---- *)
+(* ---- DetectionOnly (the transaction's current mode) ---- *)
 
-Lemma fold_strip_allow p id acts : forall s,
-  fold_left (fl_apply_act false p id) (filter fl_not_allow acts) s = fold_left (fl_apply_act false p id) acts s.
+(* an allow executed while the transaction's mode is not On changes nothing *)
+Theorem allow_not_on_ignored p id s sc : s_eng s <> MOn -> fl_apply_act p id s (AAllow sc) = s.
+Proof. intro N. cbn. destruct (s_eng s); [congruence | reflexivity | reflexivity]. Qed.
+
+Lemma fold_strip_allow p id acts : forall s, s_eng s <> MOn ->
+  fold_left (fl_apply_act p id) (filter fl_not_allow acts) s = fold_left (fl_apply_act p id) acts s.
 Proof.
-  induction acts as [|a t IH]; intro s; [reflexivity|].
-  cbn [filter]. destruct a; cbn [fl_not_allow fold_left]; try apply IH.
+  induction acts as [|a t IH]; intros s N; [reflexivity|].
+  cbn [filter]. destruct a; cbn [fl_not_allow fold_left];
+    try (apply IH; rewrite apply_act_eng; exact N).
+  rewrite (allow_not_on_ignored p id s sc N). apply IH. exact N.
 Qed.
 
-Lemma evaluate_strip_allow req p r s : fl_evaluate false req p (fl_strip_allow r) s = fl_evaluate false req p r s.
+Lemma prefix_eng_no_on req ls : forall e, forallb fl_link_no_on ls = true -> e <> MOn ->
+  fl_prefix_eng req ls e <> MOn.
 Proof.
-  unfold fl_evaluate, fl_strip_allow. cbn [r_links r_acts r_id].
-  destruct (fl_walk req (r_links r) s) as [m s1]. destruct m; [|reflexivity].
-  rewrite fold_strip_allow. reflexivity.
+  induction ls as [|l t IH]; intros e F N; cbn [fl_prefix_eng]; [exact N|].
+  cbn [forallb] in F. apply andb_true_iff in F as [F1 F2].
+  destruct (fl_link_matches req l); [|exact N].
+  apply IH; [exact F2|]. unfold fl_link_no_on in F1.
+  destruct (l_eng l) as [[| |]|]; congruence.
 Qed.
 
-Lemma loop_strip_allow req p : forall rs s,
-  fl_eval_loop false req p (map fl_strip_allow rs) s = fl_eval_loop false req p rs s.
+Lemma evaluate_eng req p r s : s_eng (fl_evaluate req p r s) = fl_prefix_eng req (r_links r) (s_eng s).
+Proof. rewrite evaluate_spec. reflexivity. Qed.
+
+Lemma evaluate_strip_allow req p r s : forallb fl_link_no_on (r_links r) = true -> s_eng s <> MOn ->
+  fl_evaluate req p (fl_strip_allow r) s = fl_evaluate req p r s.
 Proof.
-  induction rs as [|x t IH]; intro s; [reflexivity|].
+  intros F N. unfold fl_evaluate, fl_strip_allow. cbn [r_links r_acts r_id].
+  rewrite walk_spec. destruct (forallb (fl_link_matches req) (r_links r)); [|reflexivity].
+  rewrite fold_strip_allow; [reflexivity|].
+  cbn. apply prefix_eng_no_on; assumption.
+Qed.
+
+Lemma loop_strip_allow req p : forall rs s, fl_no_switch_on rs = true -> s_eng s <> MOn ->
+  fl_eval_loop req p (map fl_strip_allow rs) s = fl_eval_loop req p rs s
+  /\ s_eng (fl_eval_loop req p rs s) <> MOn
+  /\ (s_allow s = None -> s_allow (fl_eval_loop req p rs s) = None).
+Proof.
+  induction rs as [|x t IH]; intros s F N; [repeat split; [exact N | auto]|].
+  cbn [fl_no_switch_on forallb] in F. apply andb_true_iff in F as [F1 F2].
   cbn [map fl_eval_loop].
   change (fl_in_phase p (fl_strip_allow x)) with (fl_in_phase p x).
   change (fl_removed s (fl_strip_allow x)) with (fl_removed s x).
   change (r_mark (fl_strip_allow x)) with (r_mark x).
-  rewrite evaluate_strip_allow.
-  destruct (fl_halted p s); [reflexivity|].
-  destruct (negb (fl_in_phase p x)); [apply IH|].
-  destruct (fl_removed s x); [apply IH|].
+  rewrite (evaluate_strip_allow req p x s F1 N).
+  destruct (fl_halted p s); [repeat split; [exact N | auto]|].
+  destruct (negb (fl_in_phase p x)); [apply (IH s F2 N)|].
+  destruct (fl_removed s x); [apply (IH s F2 N)|].
   destruct (s_after s).
-  - destruct (opt_nat_eqb (r_mark x) (Some n)); apply IH.
-  - destruct (s_skip s); [|apply IH].
-    destruct (fl_allow_break p s); [reflexivity | apply IH].
+  - destruct (opt_nat_eqb (r_mark x) (Some n)); [apply (IH (set_after None s) F2 N) | apply (IH s F2 N)].
+  - destruct (s_skip s) as [|k]; [|apply (IH (set_skip k s) F2 N)].
+    destruct (fl_allow_break p s) as [s'|] eqn:AB.
+    + unfold fl_allow_break in AB.
+      repeat split.
+      * destruct (s_allow s) as [[| |]|]; try discriminate; try (injection AB as <-; exact N).
+        -- destruct (p =? 1); [injection AB as <-; exact N|].
+           destruct (p =? 2); [injection AB as <-; exact N | discriminate].
+        -- destruct (p =? 5); [discriminate | injection AB as <-; exact N].
+      * intro A. rewrite A in AB. discriminate.
+    + assert (N' : s_eng (fl_evaluate req p x s) <> MOn).
+      { rewrite evaluate_eng. apply prefix_eng_no_on; assumption. }
+      destruct (IH (fl_evaluate req p x s) F2 N') as (E1 & E2 & E3).
+      repeat split; [exact E1 | exact E2|].
+      intro A. apply E3. rewrite evaluate_spec. cbn.
+      pose proof (prefix_eng_no_on req (r_links x) (s_eng s) F1 N) as NN.
+      destruct (fl_prefix_eng req (r_links x) (s_eng s)); [congruence | exact A | exact A].
 Qed.
 
-(* in DetectionOnly a rule set behaves exactly like the same rule set with every allow removed *)
-Theorem detection_only_allow_ignored req rs :
-  fl_run false req (map fl_strip_allow rs) = fl_run false req rs.
+Lemma end_phase_eng s : s_eng (fl_end_phase s) = s_eng s.
+Proof. destruct s as [sk af [[| |]|] i d rm e ev]; reflexivity. Qed.
+
+Lemma phase_strip_allow req p rs s : fl_no_switch_on rs = true -> s_eng s <> MOn ->
+  fl_eval_phase req p (map fl_strip_allow rs) s = fl_eval_phase req p rs s
+  /\ s_eng (fl_eval_phase req p rs s) <> MOn
+  /\ (s_allow s = None -> s_allow (fl_eval_phase req p rs s) = None).
 Proof.
-  unfold fl_run, fl_guarded_phase, fl_eval_phase. cbn [fold_left].
-  rewrite !loop_strip_allow. reflexivity.
+  intros F N. unfold fl_eval_phase.
+  destruct (loop_strip_allow req p rs s F N) as (E1 & E2 & E3).
+  rewrite E1, end_phase_eng. repeat split; [exact E2|].
+  intro A. rewrite end_phase_allow, (E3 A). reflexivity.
 Qed.
 
-Lemma loop_detection_allow req p : forall rs s, s_allow s = None -> s_allow (fl_eval_loop false req p rs s) = None.
+Lemma guarded_strip_allow req rs : fl_no_switch_on rs = true -> forall ps s, s_eng s <> MOn ->
+  fold_left (fl_guarded_phase req (map fl_strip_allow rs)) ps s = fold_left (fl_guarded_phase req rs) ps s
+  /\ s_eng (fold_left (fl_guarded_phase req rs) ps s) <> MOn
+  /\ (s_allow s = None -> s_allow (fold_left (fl_guarded_phase req rs) ps s) = None).
 Proof.
-  induction rs as [|x t IH]; intros s A; cbn [fl_eval_loop]; [exact A|].
-  destruct (fl_halted p s); [exact A|].
-  destruct (negb (fl_in_phase p x)); [apply IH; exact A|].
-  destruct (fl_removed s x); [apply IH; exact A|].
-  destruct (s_after s).
-  - destruct (opt_nat_eqb (r_mark x) (Some n)); apply IH; exact A.
-  - destruct (s_skip s); [|apply IH; exact A].
-    unfold fl_allow_break. rewrite A. apply IH. rewrite evaluate_spec. exact A.
+  intro F. induction ps as [|p ps IH]; intros s N; [repeat split; [exact N | auto]|].
+  cbn [fold_left].
+  assert (G : fl_guarded_phase req (map fl_strip_allow rs) s p = fl_guarded_phase req rs s p
+              /\ s_eng (fl_guarded_phase req rs s p) <> MOn
+              /\ (s_allow s = None -> s_allow (fl_guarded_phase req rs s p) = None)).
+  { unfold fl_guarded_phase. destruct (fl_is_off (s_eng s)); [repeat split; [exact N | auto]|].
+    destruct (is_some (s_intr s)); [repeat split; [exact N | auto]|].
+    apply phase_strip_allow; assumption. }
+  destruct G as (G1 & G2 & G3). rewrite G1.
+  destruct (IH _ G2) as (I1 & I2 & I3). repeat split; [exact I1 | exact I2|].
+  intro A. apply I3, G3, A.
 Qed.
 
-Theorem detection_only_allow_never_set req rs : s_allow (fl_run false req rs) = None.
+(* a transaction that is not in mode On and whose rule set never switches it On (configured
+   DetectionOnly, no ctl:ruleEngine=On) is, state for state, the transaction of the same rule set with
+   every allow deleted; the allow type is never set *)
+Theorem detection_only_allow_ignored eng req rs : eng <> MOn -> fl_no_switch_on rs = true ->
+  fl_run eng req (map fl_strip_allow rs) = fl_run eng req rs /\ s_allow (fl_run eng req rs) = None.
 Proof.
-  assert (P : forall p s, s_allow s = None -> s_allow (fl_eval_phase false req p rs s) = None).
-  { intros p s A. unfold fl_eval_phase, fl_end_phase.
-    pose proof (loop_detection_allow req p rs s A) as E. rewrite E. exact E. }
-  assert (G : forall p s, s_allow s = None -> s_allow (fl_guarded_phase false req rs s p) = None).
-  { intros p s A. unfold fl_guarded_phase. destruct (is_some (s_intr s)); [exact A | apply P; exact A]. }
-  unfold fl_run. cbn [fold_left]. apply P. repeat apply G. reflexivity.
+  intros N F. unfold fl_run.
+  destruct (guarded_strip_allow req rs F [1; 2; 3; 4] (fl_init eng) N) as (E1 & E2 & E3).
+  rewrite E1. set (s4 := fold_left (fl_guarded_phase req rs) [1; 2; 3; 4] (fl_init eng)) in *.
+  unfold fl_logging. destruct (fl_is_off (s_eng s4)); [split; [reflexivity | apply E3; reflexivity]|].
+  destruct (phase_strip_allow req 5 rs s4 F E2) as (P1 & _ & P3).
+  split; [exact P1 | apply P3, E3; reflexivity].
 Qed.
 
 (* ---- chains ---- *)
 
-Lemma prefix_rm_all req ls : forallb (fl_link_matches req) ls = true ->
-  fl_prefix_rm req ls = flat_map l_rm ls.
+Lemma walk_all req ls : forall s, forallb (fl_link_matches req) ls = true ->
+  fl_walk req ls s = (true, fold_left (fun s l => fl_link_ctl l s) ls s).
 Proof.
-  induction ls as [|l t IH]; cbn [forallb fl_prefix_rm flat_map]; [reflexivity|].
-  destruct (fl_link_matches req l); cbn [andb]; [|discriminate]. intro H. rewrite IH by exact H. reflexivity.
+  induction ls as [|l t IH]; intros s M; cbn [fl_walk fold_left]; [reflexivity|].
+  cbn [forallb] in M. apply andb_true_iff in M as [M1 M2]. rewrite M1. apply IH. exact M2.
 Qed.
 
 (* every link matched: the starter's flow/disruptive actions are applied once each, in order, after the
-   non-disruptive actions of all links *)
+   non-disruptive (ctl) actions of all links *)
 Theorem chain_all_matched req p r s : fl_all_match req r = true ->
   fl_evaluate req p r s =
   add_ev (Ev p (r_id r) (negb (r_id r =? 0)))
-         (fold_left (fl_apply_act eng p (r_id r)) (r_acts r) (add_rm (flat_map l_rm (r_links r)) s)).
+         (fold_left (fl_apply_act p (r_id r)) (r_acts r) (fold_left (fun s l => fl_link_ctl l s) (r_links r) s)).
 Proof.
-  intro M. unfold fl_evaluate. rewrite walk_spec. unfold fl_all_match in M. rewrite M.
-  rewrite prefix_rm_all by exact M. reflexivity.
+  intro M. unfold fl_evaluate. unfold fl_all_match in M. rewrite (walk_all req _ s M). reflexivity.
 Qed.
 
 (* some link did not match: no flow or disruptive action takes effect *)
@@ -796,16 +858,17 @@ Theorem chain_not_all_matched req p r s : fl_all_match req r = false ->
   s_ev s' = s_ev s ++ [Ev p (r_id r) false].
 Proof.
   intro M. cbn zeta. rewrite evaluate_spec. unfold fl_fired_acts. rewrite M. cbn.
-  destruct eng; cbn; repeat split.
+  destruct (fl_prefix_eng req (r_links r) (s_eng s)); cbn; repeat split.
 Qed.
 
 Lemma walk_strip_link_acts req ls : forall s,
-  fl_walk req (map (fun l => mkLink (l_key l) (l_rm l) []) ls) s = fl_walk req ls s.
+  fl_walk req (map (fun l => mkLink (l_key l) (l_rm l) (l_eng l) []) ls) s = fl_walk req ls s.
 Proof.
   induction ls as [|l t IH]; intro s; [reflexivity|].
-  cbn [map fl_walk]. unfold fl_link_matches at 1. cbn [l_key l_rm].
+  cbn [map fl_walk]. unfold fl_link_matches at 1. cbn [l_key].
   change (match l_key l with Some k => nth k req false | None => true end) with (fl_link_matches req l).
-  destruct (fl_link_matches req l); [apply IH | reflexivity].
+  destruct (fl_link_matches req l); [|reflexivity].
+  change (fl_link_ctl (mkLink (l_key l) (l_rm l) (l_eng l) []) s) with (fl_link_ctl l s). apply IH.
 Qed.
 
 (* flow actions written on chain members never take effect *)
@@ -819,26 +882,41 @@ Qed.
 (* ---- sanity: the specification on the witnesses of the repaired defects F07 / F08 ---- *)
 
 Definition ex_rule (id p : nat) (k : option nat) (acts : list fl_act) : fl_rule :=
-  mkRule id p None [mkLink k [] []] acts.
+  mkRule id p None [mkLink k [] None []] acts.
 
 (* F07: skipAfter to an absent marker in phase 1 passes over the rest of phase 1 only *)
 Example spec_skipafter_absent_marker :
   let rs := [ex_rule 1 1 None [ASkipAfter 7]; ex_rule 2 1 (Some 0) []; ex_rule 3 2 None []; ex_rule 4 5 None []] in
-  map (fun p => fl_evaluated_in p (g_ev (fl_spec_run true [true] rs))) [1; 2; 3; 4; 5] = [[1]; [3]; []; []; [4]]
-  /\ fl_obs (fl_run true [true] rs) = fl_gobs (fl_spec_run true [true] rs).
+  map (fun p => fl_evaluated_in p (g_ev (fl_spec_run MOn [true] rs))) [1; 2; 3; 4; 5] = [[1]; [3]; []; []; [4]]
+  /\ fl_obs (fl_run MOn [true] rs) = fl_gobs (fl_spec_run MOn [true] rs).
 Proof. vm_compute. split; reflexivity. Qed.
 
 (* F08: bare allow in phase 1 ends phases 1-4, the logging phase runs *)
 Example spec_bare_allow_logging :
   let rs := [ex_rule 1 1 (Some 0) [AAllow ScAll]; ex_rule 2 1 None []; ex_rule 3 2 None []; ex_rule 4 5 None []] in
-  map (fun p => fl_evaluated_in p (g_ev (fl_spec_run true [true] rs))) [1; 2; 3; 4; 5] = [[1]; []; []; []; [4]]
-  /\ map (fun p => fl_evaluated_in p (g_ev (fl_spec_run false [true] rs))) [1; 2; 3; 4; 5] = [[1; 2]; [3]; []; []; [4]].
+  map (fun p => fl_evaluated_in p (g_ev (fl_spec_run MOn [true] rs))) [1; 2; 3; 4; 5] = [[1]; []; []; []; [4]]
+  /\ map (fun p => fl_evaluated_in p (g_ev (fl_spec_run MDet [true] rs))) [1; 2; 3; 4; 5] = [[1; 2]; [3]; []; []; [4]].
 Proof. vm_compute. split; reflexivity. Qed.
 
 (* skip:2 counts the marker; the chain starter's skip is withheld when the second link fails *)
 Example spec_skip_counts_marker :
-  let rs := [mkRule 1 2 None [mkLink (Some 0) [] []; mkLink (Some 1) [] []] [ASkip 2];
+  let rs := [mkRule 1 2 None [mkLink (Some 0) [] None []; mkLink (Some 1) [] None []] [ASkip 2];
              fl_marker 0; ex_rule 2 2 None []; ex_rule 3 2 None []] in
-  fl_evaluated_in 2 (g_ev (fl_spec_run true [true; true] rs)) = [1; 3]
-  /\ fl_evaluated_in 2 (g_ev (fl_spec_run true [true; false] rs)) = [1; 0; 2; 3].
+  fl_evaluated_in 2 (g_ev (fl_spec_run MOn [true; true] rs)) = [1; 3]
+  /\ fl_evaluated_in 2 (g_ev (fl_spec_run MOn [true; false] rs)) = [1; 0; 2; 3].
 Proof. vm_compute. split; reflexivity. Qed.
+
+(* seed C08-b shape: a transaction switched to DetectionOnly by ctl:ruleEngine does not enforce allow;
+   switched to On under a configured DetectionOnly it does *)
+Example spec_allow_follows_transaction_mode :
+  let sw m := mkRule 1 1 None [mkLink None [] (Some m) []] [] in
+  let rs m := [sw m; ex_rule 2 1 None [AAllow ScAll]; ex_rule 3 1 None []; ex_rule 4 2 None []; ex_rule 5 5 None []] in
+  map (fun p => fl_evaluated_in p (s_ev (fl_run MOn [] (rs MDet)))) [1; 2; 3; 4; 5] = [[1; 2; 3]; [4]; []; []; [5]]
+  /\ map (fun p => fl_evaluated_in p (s_ev (fl_run MDet [] (rs MOn)))) [1; 2; 3; 4; 5] = [[1; 2]; []; []; []; [5]].
+Proof. vm_compute. split; reflexivity. Qed.
+
+(* seed C08-a shape: deny,skip:2 in phase 1 - the skip count does not reach the logging phase *)
+Example spec_deny_skip_no_leak :
+  let rs := [ex_rule 1 1 None [ADeny; ASkip 2]; ex_rule 2 1 None []; ex_rule 3 5 None []; ex_rule 4 5 None []] in
+  map (fun p => fl_evaluated_in p (s_ev (fl_run MOn [] rs))) [1; 2; 3; 4; 5] = [[1]; []; []; []; [3; 4]].
+Proof. vm_compute. reflexivity. Qed.
